@@ -199,6 +199,7 @@ func (r *ComDoc) rebuildTree(parent int, files []int) {
 		tree.Insert(&r.Files[i])
 	}
 	nodes := tree.Nodes()
+	r.Files[parent].StorageRoot = -1 // stays so when the storage is now empty
 	for _, n := range nodes {
 		e := n.Item.(*DirEnt)
 		if n == tree.Root {
